@@ -372,6 +372,23 @@ def aggregate(jobs, results, ctx):
             out["inconclusive"].append(f"config {ci}: too few replicas")
         if not bad:
             continue
+        # the known length-bound mechanism (C09-F1) shifts P by about 0.008:
+        # a deviation several times larger cannot be explained by it and is
+        # reported without the (expensive, sequential) counterfactual run
+        gross = [t for t in bad if abs(t["mean"] - t["exact"]) > 0.04]
+        for t in gross:
+            out["violations"].append({
+                "config": cfgb, "ensemble": t["j"], "A": t,
+                "replicas": len(items), "steps": spec0["steps"],
+                "mech": "crossing-probability-biased",
+                "what": f"config {cfgb}: P(lambda_{t['j'] + 1}|lambda_"
+                        f"{t['j']}) = {t['mean']:.4f} +- {t['se']:.4f} vs "
+                        f"exact {t['exact']:.4f}: z = {t['z']:.1f}, band "
+                        f"{t['band_se']:.1f} SE (five times beyond what the "
+                        "known length-bound mechanism can explain)"})
+        bad = [t for t in bad if t not in gross]
+        if not bad:
+            continue
         # attribution: same seeds, only the known mechanism neutralised
         cf_ests, draws = [], 0
         base = len(jobs) + 1000 * ci
